@@ -70,10 +70,19 @@ fn is_id(s: &str) -> bool {
 /// container_from_stream on every file of 0..=24 arbitrary bytes: never panics, rewinds the stream,
 /// returns a registered container ID, and identifies every magic number listed in the property.
 #[kani::proof]
+pub fn c11_detection_total_and_rewinds_16() {
+    detection_total_and_rewinds::<16>();
+}
+
+#[kani::proof]
 pub fn c11_detection_total_and_rewinds() {
+    detection_total_and_rewinds::<24>();
+}
+
+fn detection_total_and_rewinds<const LEN: usize>() {
     let data = any_bytes24();
     let len: usize = kani::any();
-    kani::assume(len <= 24);
+    kani::assume(len <= LEN);
     let mut cur = Cursor::new(&data[..len]);
     let d = h::container_from_stream(&mut cur);
     assert!(cur.stream_position().unwrap() == 0, "C11: sniffing left the stream position changed");
@@ -89,7 +98,7 @@ pub fn c11_detection_total_and_rewinds() {
     kani::cover!(d == Some("flac") && data[0] == b'I', "ID3 + fLaC peek path taken");
     kani::cover!(d == Some("mp3") && data[0] == b'I', "ID3 without fLaC");
     kani::cover!(d == Some("avif"), "ftyp");
-    kani::cover!(d.is_none() && len >= 16, "unidentified stream");
+    kani::cover!(d.is_none() && len >= 12, "unidentified stream");
 }
 
 // The registry lookup container_from_format(hint) is a lazy_static HashMap (not executable
@@ -126,10 +135,20 @@ fn pick_hint() -> (&'static str, Option<&'static str>) {
 /// belongs to family d whatever the hint; the hint is used only when the bytes identify nothing.
 #[kani::proof]
 #[kani::stub(c2pa::jumbf_io::container_from_format, stub_container_from_format)]
+pub fn c11_hint_never_overrides_detection_16() {
+    hint_never_overrides_detection::<16>();
+}
+
+#[kani::proof]
+#[kani::stub(c2pa::jumbf_io::container_from_format, stub_container_from_format)]
 pub fn c11_hint_never_overrides_detection() {
+    hint_never_overrides_detection::<24>();
+}
+
+fn hint_never_overrides_detection<const LEN: usize>() {
     let data = any_bytes24();
     let len: usize = kani::any();
-    kani::assume(len <= 24);
+    kani::assume(len <= LEN);
     let (hint, fam) = pick_hint();
     unsafe { HINT_FAMILY = fam };
 
